@@ -246,6 +246,23 @@ def handle (s : St) (j : Json) : R (St × Json) := do
             -- the renewal task installed with when=0 runs at once
             let r2 := World.advance 64 r1.1 r1.1.now
             pure (reply (r2.1, r1.2.1 ++ r2.2.1, r1.2.2 && r2.2.2) "register")
+        | "regunreg" =>
+            -- register() and unregister() in the same instant: back to back ("pair"), or with the
+            -- renewal task run in between so that the request is in flight ("fly"); the node's
+            -- outputs of both calls enter the delivery queue together, in order
+            let a ← addrOf (← fld j "a")
+            let b ← addrOf (← fld j "bbmd")
+            let t ← fldInt j "ttl"
+            let fly := (← fldStr j "variant") == "fly"
+            let r := w.act a fun k => match k with
+              | .foreign f =>
+                  let x := foreignRegister f b t
+                  let y := if fly then foreignRenew w.now x.1 else (x.1, [])
+                  let z := foreignUnregister y.1
+                  (.foreign z.1, x.2 ++ y.2 ++ z.2)
+              | k => (k, [.raised "n/a"])
+            let r2 := World.advance 64 r.1 r.1.now
+            pure (reply (r2.1, r.2.1 ++ r2.2.1, r.2.2 && r2.2.2) ("regunreg:" ++ (if fly then "fly" else "pair")))
         | "unregister" =>
             let a ← addrOf (← fld j "a")
             let r := w.act a fun k => match k with
